@@ -564,7 +564,7 @@ class Interp:
 
     def call_function(self, fn, args, kwargs, node=None):
         self.calls_seen.append(getattr(fn, "__qualname__", str(fn)))
-        m = MODELS.get(id(fn))
+        m = getattr(self, "local_models", {}).get(id(fn)) or MODELS.get(id(fn))  # case-level models first
         if m is not None and id(fn) not in self.target_ids:
             return m(self, *args, **kwargs)
         if id(fn) in self.target_ids or id(fn) in INLINE:
